@@ -88,10 +88,12 @@ theorem outL_var (enc : EncKind) (n : Nat) (cur : List Nat) : ∀ l ∈ outL enc
   obtain ⟨a, ha, rfl⟩ := List.mem_map.1 hl
   exact ⟨a, List.mem_range.1 (List.mem_filter.1 ha).1, rfl⟩
 
-/-- the solver of a computer: encoder clauses, one blocking clause per blocked set, fresh selector -/
-structure MInv (m : MEC) (w : World) (blocked : List (List Nat)) : Prop where
+/-- the solver of a computer: encoder clauses, one blocking clause per blocked set, fresh selector;
+`F` is the family of sets the encoder describes (complete extensions for the default encoders,
+admissible sets for the encoder the command line hands to the preferred solver for `SE-PR`) -/
+structure MInvF (F : AF → ASet → Prop) (m : MEC) (w : World) (blocked : List (List Nat)) : Prop where
   wf : m.af.WF
-  isCO : ∀ T, m.enc.Base m.af T ↔ Complete m.af T
+  isF : ∀ T, m.enc.Base m.af T ↔ F m.af T
   db_sound : ∀ c ∈ w.db m.sid, c ∈ m.enc.clauses m.af ∨ ∃ E ∈ blocked, c = outL m.enc m.af.n E ++ [pl m.sel]
   db_enc : ∀ c ∈ m.enc.clauses m.af, c ∈ w.db m.sid
   db_blk : ∀ E ∈ blocked, outL m.enc m.af.n E ++ [pl m.sel] ∈ w.db m.sid
@@ -99,14 +101,21 @@ structure MInv (m : MEC) (w : World) (blocked : List (List Nat)) : Prop where
   fresh_arg : ∀ a, a < m.af.n → m.enc.argVar a ≠ m.sel
   no_add : m.additional = []
 
+/-- the invariant for an encoder of the complete extensions -/
+abbrev MInv (m : MEC) (w : World) (blocked : List (List Nat)) : Prop := MInvF Complete m w blocked
+
+theorem MInvF.isCO {m : MEC} {w : World} {blocked : List (List Nat)} (h : MInv m w blocked) :
+    ∀ T, m.enc.Base m.af T ↔ Complete m.af T := h.isF
+
 /-- `T ⊆ E` for a set and a list -/
 def SubL (T : ASet) (E : List Nat) : Prop := ∀ a, T a = true → a ∈ E
 
 /-- a satisfying assignment under `must ∧ ¬selector` -/
-theorem solve_sat {m : MEC} {w : World} {blocked : List (List Nat)} (h : MInv m w blocked) (must : List Nat)
+theorem solve_satF {F : AF → ASet → Prop} {m : MEC} {w : World} {blocked : List (List Nat)}
+    (h : MInvF F m w blocked) (must : List Nat)
     (extra : List Lit) {ν : Asg} (hΓ : cnfTrue ν (w.db m.sid) = true)
     (hA : assumpsTrue ν (inL m.enc m.af.n must ++ [nl m.sel] ++ extra) = true) :
-    Complete m.af (m.enc.S m.af ν) ∧ (∀ a ∈ must, a < m.af.n → m.enc.S m.af ν a = true) ∧
+    F m.af (m.enc.S m.af ν) ∧ (∀ a ∈ must, a < m.af.n → m.enc.S m.af ν a = true) ∧
       (∀ E ∈ blocked, ¬ SubL (m.enc.S m.af ν) E) ∧ assumpsTrue ν extra = true := by
   rw [cnfTrue_iff] at hΓ
   have henc : cnfTrue ν (m.enc.clauses m.af) = true := by
@@ -114,7 +123,7 @@ theorem solve_sat {m : MEC} {w : World} {blocked : List (List Nat)} (h : MInv m 
   simp only [assumpsTrue, List.all_append, Bool.and_eq_true, List.all_eq_true] at hA
   obtain ⟨⟨hin, hsel⟩, hextra⟩ := hA
   have hsel' : ν m.sel = false := by simpa using hsel (nl m.sel) (by simp)
-  refine ⟨(h.isCO _).1 (m.enc.sound m.af h.wf ν henc), (inL_true m.enc m.af ν must).1 hin, ?_, ?_⟩
+  refine ⟨(h.isF _).1 (m.enc.sound m.af h.wf ν henc), (inL_true m.enc m.af ν must).1 hin, ?_, ?_⟩
   · intro E hE hsub
     have := hΓ _ (h.db_blk E hE)
     rw [clauseTrue_iff] at this
@@ -126,19 +135,27 @@ theorem solve_sat {m : MEC} {w : World} {blocked : List (List Nat)} (h : MInv m 
       simp [hsel'] at hlt
   · simp only [assumpsTrue, List.all_eq_true]; exact hextra
 
+theorem solve_sat {m : MEC} {w : World} {blocked : List (List Nat)} (h : MInv m w blocked) (must : List Nat)
+    (extra : List Lit) {ν : Asg} (hΓ : cnfTrue ν (w.db m.sid) = true)
+    (hA : assumpsTrue ν (inL m.enc m.af.n must ++ [nl m.sel] ++ extra) = true) :
+    Complete m.af (m.enc.S m.af ν) ∧ (∀ a ∈ must, a < m.af.n → m.enc.S m.af ν a = true) ∧
+      (∀ E ∈ blocked, ¬ SubL (m.enc.S m.af ν) E) ∧ assumpsTrue ν extra = true :=
+  solve_satF h must extra hΓ hA
+
 /-- no satisfying assignment under `must ∧ ¬selector`: every complete extension containing `must`
 (and compatible with the extra assumptions, which only mention argument variables) is inside a
 blocked set -/
-theorem solve_unsat {m : MEC} {w : World} {blocked : List (List Nat)} (h : MInv m w blocked) (must : List Nat)
+theorem solve_unsatF {F : AF → ASet → Prop} {m : MEC} {w : World} {blocked : List (List Nat)}
+    (h : MInvF F m w blocked) (must : List Nat)
     (extra : List Lit)
     (hun : ∀ ν : Asg, ¬ (cnfTrue ν (w.db m.sid) = true ∧
       assumpsTrue ν (inL m.enc m.af.n must ++ [nl m.sel] ++ extra) = true))
-    {T : ASet} (hT : Complete m.af T) (hmust : ∀ a ∈ must, a < m.af.n → T a = true)
+    {T : ASet} (hT : F m.af T) (hmust : ∀ a ∈ must, a < m.af.n → T a = true)
     (hextra : ∀ ν, m.enc.S m.af ν = T → ν m.sel = false → assumpsTrue ν extra = true) :
     ∃ E ∈ blocked, SubL T E := by
   apply Classical.byContradiction
   intro hno
-  obtain ⟨ν, hν, hS⟩ := m.enc.complete m.af h.wf T ((h.isCO _).2 hT)
+  obtain ⟨ν, hν, hS⟩ := m.enc.complete m.af h.wf T ((h.isF _).2 hT)
   have hS' : m.enc.S m.af (ν.set m.sel false) = T := by rw [m.enc.S_set_fresh m.af ν _ _ h.fresh_arg, hS]
   apply hun (ν.set m.sel false)
   constructor
@@ -159,5 +176,14 @@ theorem solve_unsat {m : MEC} {w : World} {blocked : List (List Nat)} (h : MInv 
     apply (inL_true m.enc m.af _ must).2
     intro a ha hn
     rw [hS']; exact hmust a ha hn
+
+theorem solve_unsat {m : MEC} {w : World} {blocked : List (List Nat)} (h : MInv m w blocked) (must : List Nat)
+    (extra : List Lit)
+    (hun : ∀ ν : Asg, ¬ (cnfTrue ν (w.db m.sid) = true ∧
+      assumpsTrue ν (inL m.enc m.af.n must ++ [nl m.sel] ++ extra) = true))
+    {T : ASet} (hT : Complete m.af T) (hmust : ∀ a ∈ must, a < m.af.n → T a = true)
+    (hextra : ∀ ν, m.enc.S m.af ν = T → ν m.sel = false → assumpsTrue ν extra = true) :
+    ∃ E ∈ blocked, SubL T E :=
+  solve_unsatF h must extra hun hT hmust hextra
 
 end Crusta
